@@ -99,7 +99,8 @@ LEVEL_TEXT = ("C13_<importer>_faithful and C13_<importer>_end_to_end (Coq): for 
               "succeeds and its standard output IS <importer>_statement_output: journal.Print of one transaction per booking row, "
               "built from the specification's row fact and text as one booking with Expenses:TBD (charge_directive for the card "
               "statements swisscard2/swisscard, change_directive for postfinance/supercard/cumulus; they fix the printed decimal and "
-              "which way round a zero amount is booked, which `books` leaves open), resp. of the prices (viac, with --from).  "
+              "which way round a zero amount is booked, which `books` leaves open; C13_change_directive_books / C13_charge_directive_books: each books its row fact), resp. of the "
+              "prices (viac, with --from).  "
               "Deviations of the code from the property's wording are stated as the relation the code "
               "implements and listed as findings.  Group B (Properties/C13b.v): C13b_print_balanced / C13b_journal_balanced (what a group B importer hands to the printer consists of posting pairs), C13_revolut2_faithful (one transaction per completed row, "
               "Amount - Fee; one assertion per day and currency with the last row's Balance), C13_revolut_faithful (one transaction per row, "
@@ -124,7 +125,8 @@ LEVEL_TEXT = ("C13_<importer>_faithful and C13_<importer>_end_to_end (Coq): for 
               "flags prints exactly <importer>_statement_output: the transactions booking_directive builds from the specification's "
               "X_fact / X_legs / X_text (revolut2: of the completed rows, then the assertions of the closing balances r2s_closings "
               "sorted by day and currency name; revolut: rvs_weave; wise: of ws_entries; swissquote: of sqs_entries) -- no hypothesis "
-              "on the accounts being different is needed for these.")
+              "on the accounts being different is needed for these; C13b_books_determines: a transaction that books a row under the "
+              "row's text is the one booking_directive builds, so the transactions of the _faithful theorems are these.")
 LEVEL_NOTE = ("Trusted: kernel, extraction, the harness' generators and runner, Go's csv/json/charset readers (observed, not modelled), the "
               "printer model.  The verdict that the output is right is, for all eleven importers, an extracted Coq definition proved "
               "equal to what the importer model prints (C13_<importer>_stdout), evaluated on every generated well-formed statement "
